@@ -102,23 +102,23 @@ def hex4 : Bytes → Option (Nat × Bytes)
   | _ => none
 
 /-- String contents after the opening quote: decoded bytes (not yet checked for
-UTF-8 validity) and the rest after the closing quote. -/
+UTF-8 validity; accumulated in reverse) and the rest after the closing quote. -/
 def strBody : Nat → Bytes → Bytes → Option (Bytes × Bytes)
   | 0, _, _ => none
   | _ + 1, [], _ => none
   | fuel + 1, c :: cs, acc =>
-    if c = 34 then some (acc, cs)
+    if c = 34 then some (acc.reverse, cs)
     else if c < 32 then none
     else if c = 92 then
       match cs with
-      | 34 :: r => strBody fuel r (acc ++ [34])
-      | 92 :: r => strBody fuel r (acc ++ [92])
-      | 47 :: r => strBody fuel r (acc ++ [47])
-      | 98 :: r => strBody fuel r (acc ++ [8])
-      | 102 :: r => strBody fuel r (acc ++ [12])
-      | 110 :: r => strBody fuel r (acc ++ [10])
-      | 114 :: r => strBody fuel r (acc ++ [13])
-      | 116 :: r => strBody fuel r (acc ++ [9])
+      | 34 :: r => strBody fuel r (34 :: acc)
+      | 92 :: r => strBody fuel r (92 :: acc)
+      | 47 :: r => strBody fuel r (47 :: acc)
+      | 98 :: r => strBody fuel r (8 :: acc)
+      | 102 :: r => strBody fuel r (12 :: acc)
+      | 110 :: r => strBody fuel r (10 :: acc)
+      | 114 :: r => strBody fuel r (13 :: acc)
+      | 116 :: r => strBody fuel r (9 :: acc)
       | 117 :: r =>
         match hex4 r with
         | none => none
@@ -130,13 +130,14 @@ def strBody : Nat → Bytes → Bytes → Option (Bytes × Bytes)
               | none => none
               | some (l, r3) =>
                 if 0xDC00 ≤ l ∧ l ≤ 0xDFFF then
-                  strBody fuel r3 (acc ++ utf8Encode (0x10000 + (u - 0xD800) * 1024 + (l - 0xDC00)))
+                  strBody fuel r3
+                    ((utf8Encode (0x10000 + (u - 0xD800) * 1024 + (l - 0xDC00))).reverse ++ acc)
                 else none
             | _ => none
           else if 0xDC00 ≤ u ∧ u ≤ 0xDFFF then none
-          else strBody fuel r1 (acc ++ utf8Encode u)
+          else strBody fuel r1 ((utf8Encode u).reverse ++ acc)
       | _ => none
-    else strBody fuel cs (acc ++ [c])
+    else strBody fuel cs (c :: acc)
 
 def jstring (bs : Bytes) : Option (Bytes × Bytes) :=
   match strBody (bs.length + 1) bs [] with
